@@ -64,6 +64,7 @@ struct InterMonitor : Monitor {
   Stats &st;
   Outcome &out;
   std::map<std::string, AbsVal::P> cache;
+  std::map<const AbsVal *, GammaCache> caches; // the invariants are never mutated here
   std::map<std::string, std::vector<SummaryPair>> sum_cache;
   std::map<std::string, int> seen;
   GammaOpts full, cheap;
@@ -85,7 +86,7 @@ struct InterMonitor : Monitor {
       it = cache.insert({key, inv(*f.fn, label, is_pre)}).first;
     Sigma sg = sigma_of(f.st, f.fn->vars, &m.heap);
     int &n = seen[key];
-    GammaResult g = in_gamma(*it->second, sg, n < 4 ? full : cheap);
+    GammaResult g = in_gamma(*it->second, sg, n < 4 ? full : cheap, &caches[it->second.get()]);
     n++;
     st.inc("gamma_checks");
     if (!g.ok) {
